@@ -65,6 +65,9 @@ func runC07(m *Sim) {
 			n.DoAuthorizeServer(as)
 			em := SignMigration(s, server.EquipmentMigration{Equipment: dev.Key.Pub, NewGCA: Key("gcaNew").Pub, NewShortID: 5})
 			n.DoMigrate(em)
+			// An order that names its own signer as the new GCA: only the
+			// current GCA's signature counts, never the new one's.
+			n.DoMigrate(SignMigration(s, server.EquipmentMigration{Equipment: Key("dev-self").Pub, NewGCA: s.Pub, NewShortID: 6}))
 		}
 		n.Check("C07.gate", site)
 		n.CheckServers("C07.authority")
